@@ -58,7 +58,7 @@ def describe(tier):
     return {
         'rule': 'entries: every stored (key, bytes) pair of both shipped databases is decoded; key grammar, well-formedness, '
         'gate basis and reference truth table == key. lookup: every fully defined table (all rows, incl. equal and '
-        'complementary outputs) for the listed (n,m). model: every {0,1,*} table for (2,1),(2,2),(3,1): result agrees on '
+        'complementary outputs) for the listed (n,m), rows given as lists and (all n=2 tables, every 16th n=3 table) as tuples. model: every {0,1,*} table for (2,1),(2,2),(3,1): result agrees on '
         'defined entries and is no larger than the stored circuit of any completion. distinct = distinct '
         '(db, n, m, gate count) outcomes.',
         'bounds': {
@@ -140,14 +140,16 @@ def _rows(v, rows):
     return [bool((v >> j) & 1) for j in range(rows)]
 
 
-def check_lookup_one(name, n, vs, acc):
+def check_lookup_one(name, n, vs, acc, as_tuples=False):
     d = db(name)
     rows = 1 << n
     tt = [_rows(v, rows) for v in vs]
+    if as_tuples:  # RawTruthTable = Sequence[Sequence[bool]]: tuples are as good as lists
+        tt = tuple(tuple(r) for r in tt)
     acc.states += 1
     acc.traces += 1
     acc.transitions += 1
-    case = lambda: {'db': name, 'n': n, 'tables': [refmodel.tt_str(v, n) for v in vs]}  # noqa: E731
+    case = lambda: {'db': name, 'n': n, 'tables': [refmodel.tt_str(v, n) for v in vs], 'rows_as_tuples': as_tuples}  # noqa: E731
     ok, c = guarded(acc, 'lookup', case, d.get_by_raw_truth_table, tt)
     if not ok:
         return
@@ -188,6 +190,8 @@ def check_lookup(task, acc):
     for f in firsts:
         for rest in itertools.product(range(total), repeat=m - 1):
             check_lookup_one(name, n, (f,) + rest, acc)
+            if m >= 2 and (n == 2 or (f + sum(rest)) % 16 == 0):
+                check_lookup_one(name, n, (f,) + rest, acc, as_tuples=True)
     acc.sample({'db': name, 'n': n, 'tables': [refmodel.tt_str(v, n) for v in ((firsts[0],) + (total - 1,) * (m - 1))]})
 
 
@@ -235,6 +239,24 @@ def check_model_one(name, n, tabs, acc):
     if best is None or c.gates_number() > best:
         acc.violation('model-lookup/not-minimal', case, f'returned {c.gates_number()} gates, best completion has {best}')
     acc.outcome('model', (name, n, len(tabs), c.gates_number()))
+    if n == 2 and len(tabs) == 1:
+        # an explicit exclusion list changes the size measure: [] / () mean "count every gate"
+        for excl in ([], ()):
+            acc.transitions += 1
+            ok, c2 = guarded(acc, 'model-lookup(exclusion_list)', case, d.get_by_raw_truth_table_model, [list(r) for r in ttm], excl)
+            if not ok or c2 is None:
+                continue
+            best2 = None
+            for sub in itertools.product('01', repeat=len(stars)):
+                cur = [list(t) for t in tabs]
+                for (i, j), ch in zip(stars, sub):
+                    cur[i][j] = ch
+                cc = d.get_by_raw_truth_table([[ch == '1' for ch in r] for r in cur])
+                if cc is not None:
+                    g = cc.gates_number(excl)
+                    best2 = g if best2 is None or g < best2 else best2
+            if best2 is not None and c2.gates_number(excl) > best2:
+                acc.violation('model-lookup/not-minimal-under-explicit-exclusion-list', case, f'returned {c2.gates_number(excl)}, best {best2}, exclusion_list={excl!r}')
 
 
 def check_model(task, acc):
@@ -290,7 +312,7 @@ def replay(case, acc):
         return run_task(case['task'], acc)
     if 'tables' in case:
         vs = tuple(refmodel.tt_from_rows([ch == '1' for ch in t]) for t in case['tables'])
-        return check_lookup_one(case['db'], case['n'], vs, acc)
+        return check_lookup_one(case['db'], case['n'], vs, acc, case.get('rows_as_tuples', False))
     if 'model' in case:
         return check_model_one(case['db'], case['n'], tuple(case['model']), acc)
     if 'key' in case:
